@@ -69,6 +69,10 @@ fn run_ops(ctx: &mut Ctx, cfg: &Config, ops: &[Op], explore_stalls: bool, forced
             steps.push(last);
         }
         let mut s = st2.borrow_mut();
+        // a finite stall that has run out makes room for a further one (thorough tier)
+        if matches!(s.persist, Some(Persist::Packet(_, _, 0)) | Some(Persist::Connect(0)) | Some(Persist::Writes(0))) {
+            s.persist = None;
+        }
         // a persistent stall chosen earlier
         if let Some(Persist::Packet(px, pk, left)) = s.persist.clone() {
             if px == x && !s.applied_on.contains(&req.conn) {
@@ -245,7 +249,6 @@ pub fn run(run: &RunInfo) -> Summary {
     for i in 0..cfgs.len() {
         work.push(W::Cfg(i));
     }
-    let _ = thorough;
     let mut acc = par_for(work.len(), |ix, acc| match &work[ix] {
         W::Stalls(si) => {
             let (name, max, ops) = &scenarios[*si];
@@ -254,7 +257,7 @@ pub fn run(run: &RunInfo) -> Summary {
             }
             let mut cfg = base_config();
             cfg.transactions_max_num = *max;
-            let st = dbx::explore(1, 10_000_000, |ctx| {
+            let st = dbx::explore(if thorough { 2 } else { 1 }, 50_000_000, |ctx| {
                 let o = run_ops(ctx, &cfg, ops, true, None, 0, acc);
                 acc.count("executions", 1);
                 acc.max("max_elapsed_s", o.max_elapsed_ms / 1000);
@@ -346,7 +349,7 @@ pub fn run(run: &RunInfo) -> Summary {
         ],
         assumptions: vec![
             "configuration values that cannot be represented in their wire field (password >= 10^6, amount >= 10^12) make the encoder panic and are outside the domain".into(),
-            "one stall (possibly persistent) per history".into(),
+            "one stall (possibly persistent) per history in the quick tier, two in the thorough tier".into(),
         ],
         bounds: json!({"stall_budget": 1, "read_card_timeout": "0..=255"}),
         caps_hit: vec![],
